@@ -417,6 +417,29 @@ def check(ctx):
         opens = [c for c in calls_in(fn) if call_name(c) == "open" and not getattr(stmt_of(c), "_xv_call_marker", False)]
         ok = bool(opens) and all(const_value(kwarg(c, "closefd"), True) is False for c in opens)
         ctx.ob("R5", f"{PP}:PipeChannel.{name}", "wrappers are opened with closefd=False (single owner: only the channel closes the fd)", ok, key=f"{name}|closefd", where=loc(fn))
+    # the stage classes wrap descriptors they were given, they never own one: a wrapper that owns its descriptor
+    # (no closefd=False) or a private duplicate (os.dup) lives until somebody closes it - or until garbage collection,
+    # which a traceback kept in sys.last_exc postpones indefinitely: the writer upstream never sees EPIPE and stays
+    pxm = ctx.repo.module("xonsh/procs/proxies.py")
+    n_wr = 0
+    for q, fn in pxm.functions():
+        if not q.startswith(("ProcProxyThread.", "ProcProxy.")):
+            continue
+        for c in calls_in(fn):
+            nm = call_name(c) or ""
+            if nm in ("open", "io.open", "os.fdopen") and c.args and not isinstance(c.args[0], ast.Constant):
+                a0 = c.args[0]
+                is_fd = (isinstance(a0, ast.Attribute) and a0.attr.endswith(("read", "write"))) or isinstance(a0, ast.Call) or (isinstance(a0, ast.Name) and a0.id in ("stdin", "stdout", "stderr", "fd")) or unparse(a0) in ("0", "1", "2")
+                if not is_fd:
+                    continue
+                n_wr += 1
+                ok = const_value(kwarg(c, "closefd"), True) is False and not any(isinstance(x, ast.Call) and call_name(x) in ("os.dup", "os.dup2") for x in ast.walk(a0))
+                ctx.ob("R5", f"xonsh/procs/proxies.py:{q}", f"`{short(c, 50)}` wraps the stage's descriptor without owning it (closefd=False, no private duplicate)", ok, key=f"{q}|wrapper-owns-descriptor|{unparse(a0)[:30]}", where=loc(c))
+            elif nm in ("os.dup", "os.dup2") and not any(isinstance(a, ast.Call) and call_name(a) in ("open", "io.open", "os.fdopen") for a in ancestors(c)):
+                n_wr += 1
+                ctx.ob("R5", f"xonsh/procs/proxies.py:{q}", f"`{short(c, 40)}`: the stage classes create no descriptors of their own", False, key=f"{q}|private-duplicate", where=loc(c))
+    if n_wr < 4:
+        raise AnalysisError(f"xonsh/procs/proxies.py: only {n_wr} descriptor wrappers found in the stage classes")
     rd = ctx.repo.module(RD)
     sf = rd.func("safe_fdclose")
     scfg = CFG(sf)
